@@ -101,12 +101,34 @@ def bp_strategy():
 
 
 def opts_strategy():
+    # 10 is the documented default of the three sub-sample counts
+    sub = st.one_of(st.integers(1, 7), st.integers(1, 7), st.just(10))
     return st.fixed_dictionaries({
         'integrate_path': st.booleans(), 'integrate_t_profile': st.booleans(),
         'integrate_f_profile': st.booleans(),
-        't_subsamples': st.integers(1, 7), 'f_subsamples': st.integers(1, 7),
-        'doppler_smearing': st.booleans(), 'smearing_subsamples': st.integers(1, 9),
+        't_subsamples': sub, 'f_subsamples': sub,
+        'doppler_smearing': st.booleans(), 'smearing_subsamples': st.one_of(st.integers(1, 9), st.just(10)),
+        # how the options reach add_signal: all spelled out, documented defaults left out, or positionally
+        'call_style': st.sampled_from(['explicit', 'explicit', 'omit_defaults', 'omit_defaults', 'positional']),
     })
+
+
+ADD_SIGNAL_DEFAULTS = (('bounding_f_range', None), ('integrate_path', False), ('integrate_t_profile', False),
+                       ('integrate_f_profile', False), ('doppler_smearing', False), ('t_subsamples', 10),
+                       ('f_subsamples', 10), ('smearing_subsamples', 10))       # in signature order, after bp_profile
+
+
+def call_options(opts, rng=None):
+    """(args, kwargs) that follow (path, t_profile, f_profile, bp_profile) in an add_signal call."""
+    full = dict(bounding_f_range=rng, integrate_path=opts['integrate_path'], integrate_t_profile=opts['integrate_t_profile'],
+                integrate_f_profile=opts['integrate_f_profile'], doppler_smearing=opts['doppler_smearing'],
+                t_subsamples=opts['t_subsamples'], f_subsamples=opts['f_subsamples'], smearing_subsamples=opts['smearing_subsamples'])
+    style = opts.get('call_style', 'explicit')
+    if style == 'positional':
+        return tuple(full[k] for k, _ in ADD_SIGNAL_DEFAULTS), {}
+    if style == 'omit_defaults':
+        return (), {k: full[k] for k, d in ADD_SIGNAL_DEFAULTS if not (full[k] is d or (d is not None and type(full[k]) is type(d) and full[k] == d))}
+    return (), full
 
 
 RANGE_KINDS = ['none', 'none', 'inside', 'clip_low', 'clip_high', 'below', 'above', 'reversed']
